@@ -118,7 +118,14 @@ type wire struct {
 	csHeader string
 	hasCS    bool
 	reqURI   string // X-Request-Uri ("" = not sent)
+	chunked  bool   // body of undeclared length (chunked upload): ContentLength -1, opaque reader
 }
+
+// opaqueReader hides the concrete reader type from net/http, so that the request's length stays
+// undeclared (ContentLength -1), as for a chunked upload.
+type opaqueReader struct{ r io.Reader }
+
+func (o *opaqueReader) Read(p []byte) (int, error) { return o.r.Read(p) }
 
 func (q *wire) url() string {
 	u := "http://localhost" + q.path
@@ -200,25 +207,26 @@ func tsOffset(code int, tol int64) int64 {
 }
 
 type csPlan struct {
-	think   time.Duration
-	kind    int
-	method  int
-	path    int
-	query   int
-	size    int
-	pseed   uint64
-	crypt   bool
-	keyLen  int // 16,24,32
-	kseed   uint64
-	fp      int // which configured key the client uses
-	tsCode  int
-	delay   int // delivery delay code: 0 none; 1 tol-1ns.. see deliveryDelay
-	mseed   uint64
-	rsize   int // response payload size
-	rseed   uint64
-	chunks  int
-	yields  int
+	think    time.Duration
+	kind     int
+	method   int
+	path     int
+	query    int
+	size     int
+	pseed    uint64
+	crypt    bool
+	keyLen   int // 16,24,32
+	kseed    uint64
+	fp       int // which configured key the client uses
+	tsCode   int
+	delay    int // delivery delay code: 0 none; 1 tol-1ns.. see deliveryDelay
+	mseed    uint64
+	rsize    int // response payload size
+	rseed    uint64
+	chunks   int
+	yields   int
 	encEmpty bool // encrypt the empty payload instead of sending no body
+	chunked  bool // the body travels with undeclared length (ContentLength -1)
 }
 
 func drawCsPlan(t *simrt.Tape) csPlan {
@@ -243,6 +251,7 @@ func drawCsPlan(t *simrt.Tape) csPlan {
 	p.chunks = t.Range(1, 3)
 	p.yields = t.Intn(3)
 	p.encEmpty = t.Chance(1, 8)
+	p.chunked = t.Chance(1, 4)
 	return p
 }
 
@@ -265,9 +274,18 @@ func deliveryDelay(code int, tol time.Duration) (time.Duration, bool) {
 }
 
 type csServer struct {
-	fps       [2]string // fingerprints under which keys 0 and 1 are configured ("" = not configured)
+	fps       [2]string // fingerprints under which the two key slots are configured ("" = not configured)
+	keys      [2]int    // which RSA key (index into rsaKeys) each slot holds
 	tolerance time.Duration
 	strict    bool
+}
+
+// key maps a slot to the RSA key it holds; 2 is the key that no server ever has.
+func (s *csServer) key(slot int) int {
+	if slot == 2 {
+		return 2
+	}
+	return s.keys[slot]
 }
 
 type csRec struct {
@@ -290,6 +308,20 @@ type csWorld struct {
 	cache    rsaCache
 	recs     []*csRec
 	boundary bool
+	prefix   string // path prefix of the route group the requests are sent to (engine mode)
+	pfx      string // class prefix of the delivery checks ("engine-" in engine mode)
+}
+
+// paths: the request paths of the workload (under the group prefix in engine mode).
+func (w *csWorld) paths() []string {
+	if w.prefix == "" {
+		return csPaths
+	}
+	ps := make([]string, len(csPaths))
+	for i, p := range csPaths {
+		ps[i] = w.prefix + p
+	}
+	return ps
 }
 
 // build renders the plan into a wire request signed at second nowS.
@@ -301,7 +333,9 @@ func (w *csWorld) build(p csPlan, nowS int64) *csRec {
 	rec.aesKey = (&prng{s: p.kseed}).bytes(p.keyLen)
 	rec.respWant = (&prng{s: p.rseed}).bytes(p.rsize)
 	q := &rec.q
-	q.method, q.path, q.query = csMethods[p.method], csPaths[p.path], csQueries[p.query]
+	paths := w.paths()
+	q.method, q.path, q.query = csMethods[p.method], paths[p.path], csQueries[p.query]
+	q.chunked = p.chunked
 	q.body = rec.plain
 	if p.crypt && (len(rec.plain) > 0 || p.encEmpty) {
 		q.body = []byte(std64.EncodeToString(ecbEncrypt(rec.aesKey, rec.plain)))
@@ -318,7 +352,7 @@ func (w *csWorld) build(p csPlan, nowS int64) *csRec {
 		typ = 1
 	}
 	inner := fmt.Sprintf("version=v1; type=%d; key=%s; time=%s", typ, std64.EncodeToString(rec.aesKey), tss)
-	encKey := fpKey
+	encKey := w.srv.key(fpKey)
 	m := &prng{s: p.mseed}
 	signTS, signMethod, signPath, signQuery, signBody, signKey := tss, q.method, q.path, q.query, q.body, rec.aesKey
 	other := func(list []string, cur string) string {
@@ -336,7 +370,7 @@ func (w *csWorld) build(p csPlan, nowS int64) *csRec {
 	case ckMethod:
 		q.method = other(csMethods, q.method)
 	case ckPath:
-		q.path = other(csPaths, q.path)
+		q.path = other(paths, q.path)
 	case ckQuery:
 		q.query = other(csQueries, q.query)
 	case ckBody:
@@ -377,7 +411,7 @@ func (w *csWorld) build(p csPlan, nowS int64) *csRec {
 			fingerprint = "fp-unconfigured"
 		}
 	case ckSecretForOtherKey:
-		encKey = 1 - fpKey
+		encKey = w.srv.key(1 - fpKey)
 	case ckSecretUnconfiguredKey:
 		encKey = 2
 	case ckInnerNoTime:
@@ -391,14 +425,14 @@ func (w *csWorld) build(p csPlan, nowS int64) *csRec {
 	case ckRequestURIMismatch:
 		// captured signed request replayed against another resource, original uri in X-Request-Uri is NOT
 		// what was signed either
-		q.reqURI = "http://gateway" + other(csPaths, q.path) + "?" + q.query
+		q.reqURI = "http://gateway" + other(paths, q.path) + "?" + q.query
 	case ckRequestURIHonest:
 		// a gateway rewrote the url; the signed (original) uri travels in X-Request-Uri
 		q.reqURI = "http://gateway" + q.path
 		if q.query != "" {
 			q.reqURI += "?" + q.query
 		}
-		q.path, q.query = "/internal/route", "rewritten=1"
+		q.path, q.query = w.prefix+"/internal/route", "rewritten=1"
 	}
 	sig := csSignature(signKey, signTS, signMethod, signPath, signQuery, signBody)
 	if corruptSig {
@@ -445,9 +479,13 @@ func (w *csWorld) build(p csPlan, nowS int64) *csRec {
 
 func (q *wire) request(ctx context.Context) *http.Request {
 	var req *http.Request
-	if len(q.body) > 0 {
+	switch {
+	case q.chunked:
+		req = httptest.NewRequest(q.method, q.url(), io.NopCloser(&opaqueReader{bytes.NewReader(q.body)}))
+		req.ContentLength = -1
+	case len(q.body) > 0:
 		req = httptest.NewRequest(q.method, q.url(), bytes.NewReader(q.body))
-	} else {
+	default:
 		req = httptest.NewRequest(q.method, q.url(), nil)
 	}
 	if q.hasCS {
@@ -470,7 +508,10 @@ type csVerdict struct {
 	key    []byte
 }
 
-func (w *csWorld) judge(q *wire) csVerdict {
+func (w *csWorld) judge(q *wire) csVerdict { return w.judgeWith(&w.srv, q) }
+
+// judgeWith judges the request against the given server configuration.
+func (w *csWorld) judgeWith(srv *csServer, q *wire) csVerdict {
 	var v csVerdict
 	if !q.hasCS {
 		v.reason = "no-header"
@@ -482,7 +523,7 @@ func (w *csWorld) judge(q *wire) csVerdict {
 		return v
 	}
 	keyIdx := -1
-	for i, fp := range w.srv.fps {
+	for i, fp := range srv.fps {
 		if fp != "" && fp == a["key"] {
 			keyIdx = i
 		}
@@ -491,7 +532,7 @@ func (w *csWorld) judge(q *wire) csVerdict {
 		v.reason = "unknown-fingerprint"
 		return v
 	}
-	inner, ok := rsaDecryptB64(w.cache, keyIdx, a["secret"])
+	inner, ok := rsaDecryptB64(w.cache, srv.keys[keyIdx], a["secret"])
 	if !ok {
 		v.reason = "secret-not-for-configured-key"
 		return v
@@ -549,6 +590,7 @@ func csSizes(t *simrt.Tape, tier string) (nTasks, perTask int) {
 func contentSecurity(r *simrt.Run, tier string) {
 	t := r.Tape
 	w := &csWorld{r: r, cache: rsaCache{}}
+	w.srv.keys = [2]int{0, 1}
 	w.srv.strict = !t.Chance(1, 5)
 	w.srv.tolerance = []time.Duration{time.Hour, time.Second, 5 * time.Second, time.Minute, 2 * time.Second}[t.Intn(5)]
 	switch t.Intn(3) {
@@ -567,6 +609,7 @@ func contentSecurity(r *simrt.Run, tier string) {
 			plans[i] = append(plans[i], drawCsPlan(t))
 		}
 	}
+	limitEncryptedChunked(t, plans)
 	decs := map[string]codec.RsaDecrypter{}
 	for i, fp := range w.srv.fps {
 		if fp != "" {
@@ -704,6 +747,12 @@ func (w *csWorld) checkCS(rec *csRec, rw *httptest.ResponseRecorder) {
 		r.Fail(cls, "%s: the protected handler RAN although the signature does not cover the request as sent at that instant", w.describe(rec, &v))
 		return
 	}
+	if rec.q.chunked {
+		r.Probe("cs-chunked-request")
+		if rec.ran == 0 && v.reason == "signature-does-not-cover-request" {
+			r.Probe("cs-chunked-tampered-request-rejected")
+		}
+	}
 	if rec.ran == 0 {
 		if rec.status < 400 {
 			r.Fail("cs-strict-reject-status", "%s: handler not called but status is %d", w.describe(rec, &v), rec.status)
@@ -745,7 +794,7 @@ func (w *csWorld) checkDelivered(rec *csRec, rw *httptest.ResponseRecorder, v *c
 			w.finding("crypt-roundtrip-empty-payload", "%s: correctly signed request whose body is the encryption of the EMPTY payload does not reach the handler (status %d)", w.describe(rec, v), rec.status)
 			return
 		}
-		r.Fail("cs-valid-rejected", "%s: correctly signed request inside the tolerance did not reach the handler (status %d)", w.describe(rec, v), rec.status)
+		r.Fail(w.pfx+"cs-valid-rejected", "%s: correctly signed request inside the tolerance did not reach the handler (status %d)", w.describe(rec, v), rec.status)
 		return
 	}
 	encrypted := v.crypt && len(rec.q.body) > 0
@@ -754,12 +803,20 @@ func (w *csWorld) checkDelivered(rec *csRec, rw *httptest.ResponseRecorder, v *c
 		want = rec.plain
 		r.Probe("cs-encrypted-body")
 	}
+	if rec.q.chunked {
+		r.Probe("cs-chunked-valid-request-accepted")
+		if encrypted && !bytes.Equal(rec.plain, rec.q.body) && bytes.Equal(rec.gotBody, rec.q.body) {
+			w.finding(chunkedFinding, "%s: correctly signed request whose ENCRYPTED body travels with undeclared length (chunked upload, ContentLength -1): the handler received the ciphertext %s as sent, not the decrypted payload %s",
+				w.describe(rec, v), short(rec.gotBody), short(rec.plain))
+			return
+		}
+	}
 	if !bytes.Equal(rec.gotBody, want) {
-		r.Fail("cs-body-mismatch", "%s: handler read body %s, want %s (encrypted=%v)", w.describe(rec, v), short(rec.gotBody), short(want), encrypted)
+		r.Fail(w.pfx+"cs-body-mismatch", "%s: handler read body %s, want %s (encrypted=%v)", w.describe(rec, v), short(rec.gotBody), short(want), encrypted)
 		return
 	}
 	if rec.status != http.StatusOK {
-		r.Fail("cs-accepted-status", "%s: handler ran and wrote 200 but the client got %d", w.describe(rec, v), rec.status)
+		r.Fail(w.pfx+"cs-accepted-status", "%s: handler ran and wrote 200 but the client got %d", w.describe(rec, v), rec.status)
 		return
 	}
 	got := rw.Body.Bytes()
@@ -773,13 +830,34 @@ func (w *csWorld) checkDelivered(rec *csRec, rw *httptest.ResponseRecorder, v *c
 		if !encrypted && bytes.Equal(got, rec.respWant) {
 			return
 		}
-		r.Fail("cs-response-roundtrip", "%s: handler wrote %s; client received %s which does not decrypt to it", w.describe(rec, v), short(rec.respWant), short(got))
+		r.Fail(w.pfx+"cs-response-roundtrip", "%s: handler wrote %s; client received %s which does not decrypt to it", w.describe(rec, v), short(rec.respWant), short(got))
 		return
 	}
 	if !bytes.Equal(got, rec.respWant) {
-		r.Fail("cs-response-mismatch", "%s: handler wrote %s; client received %s", w.describe(rec, v), short(rec.respWant), short(got))
+		r.Fail(w.pfx+"cs-response-mismatch", "%s: handler wrote %s; client received %s", w.describe(rec, v), short(rec.respWant), short(got))
 	}
 }
+
+// limitEncryptedChunked: an ENCRYPTED body of undeclared length always ends in the known finding
+// below (first failure wins), so only one run in eight may contain such requests; in the other
+// runs bodies of undeclared length are plain ones.
+func limitEncryptedChunked(t *simrt.Tape, plans [][]csPlan) {
+	if t.Chance(1, 8) {
+		return
+	}
+	for i := range plans {
+		for j := range plans[i] {
+			if plans[i][j].crypt {
+				plans[i][j].chunked = false
+			}
+		}
+	}
+}
+
+// chunkedFinding: an encrypted body whose length is not declared (ContentLength -1) is handed to the
+// protected handler as it came in, undecrypted (both the content-security gate and the cryption
+// handler decide by r.ContentLength > 0 whether there is a body to decrypt).
+const chunkedFinding = "crypt-chunked-body-not-decrypted"
 
 // clientDecrypt undoes what the server does to an encrypted response; the empty response stays empty.
 func clientDecrypt(key, body []byte) ([]byte, bool) {
@@ -828,18 +906,27 @@ func cryption(r *simrt.Run, tier string) {
 	}
 	nTasks, perTask := csSizes(t, tier)
 	type plan struct {
-		size, rsize   int
-		pseed, rseed  uint64
-		chunks        int
-		yields        int
-		encEmpty      bool
-		think         time.Duration
+		size, rsize  int
+		pseed, rseed uint64
+		chunks       int
+		yields       int
+		encEmpty     bool
+		think        time.Duration
+		chunked      bool
 	}
 	plans := make([][]plan, nTasks)
 	for i := range plans {
 		for j := 0; j < perTask; j++ {
 			plans[i] = append(plans[i], plan{size: payloadSizes[t.Intn(len(payloadSizes))], rsize: payloadSizes[t.Intn(len(payloadSizes))],
-				pseed: seedOf(t), rseed: seedOf(t), chunks: t.Range(1, 3), yields: t.Intn(3), encEmpty: t.Chance(1, 8), think: drawThink(t) / 4})
+				pseed: seedOf(t), rseed: seedOf(t), chunks: t.Range(1, 3), yields: t.Intn(3), encEmpty: t.Chance(1, 8), think: drawThink(t) / 4,
+				chunked: t.Chance(1, 4)})
+		}
+	}
+	if !t.Chance(1, 8) { // see limitEncryptedChunked: every body is encrypted here
+		for i := range plans {
+			for j := range plans[i] {
+				plans[i][j].chunked = false
+			}
 		}
 	}
 	next := http.HandlerFunc(func(rw http.ResponseWriter, req *http.Request) {
@@ -876,7 +963,7 @@ func cryption(r *simrt.Run, tier string) {
 				w.recs = append(w.recs, rec)
 				rec.plain = (&prng{s: p.pseed}).bytes(p.size)
 				rec.respWant = (&prng{s: p.rseed}).bytes(p.rsize)
-				rec.q = wire{method: http.MethodPost, path: "/a/b"}
+				rec.q = wire{method: http.MethodPost, path: "/a/b", chunked: p.chunked}
 				if len(rec.plain) > 0 || p.encEmpty {
 					rec.q.body = []byte(std64.EncodeToString(ecbEncrypt(key, rec.plain)))
 				}
@@ -905,6 +992,13 @@ func cryption(r *simrt.Run, tier string) {
 					}
 					r.Fail("crypt-body-not-delivered", "%s: properly encrypted body did not reach the handler, status %d", desc, rw.Code)
 					return
+				}
+				if p.chunked {
+					r.Probe("crypt-chunked-request")
+					if len(rec.q.body) > 0 && !bytes.Equal(rec.plain, rec.q.body) && bytes.Equal(rec.gotBody, rec.q.body) {
+						w.finding(chunkedFinding, "%s: the encrypted body travels with undeclared length (chunked upload, ContentLength -1): the handler received the ciphertext as sent, not the decrypted payload", desc)
+						continue
+					}
 				}
 				if !bytes.Equal(rec.gotBody, rec.plain) {
 					r.Fail("crypt-body-mismatch", "%s: handler read %s", desc, short(rec.gotBody))
